@@ -21,7 +21,7 @@ def chk(id, level, technique, text, note, design):
 chk("C17", "fault_enumeration",
     "deterministic simulation: seeded changelog workloads over a simulated stream with EOF-at-every-byte (truncation), EIO and malformed-entry faults, checked against an entry-list reference model; seeded search with tape minimisation and exact replay",
     "Every run is one seeded workload + delivery schedule + at most one fault. Quick samples fault positions biased into headers/trailers/dates and sweeps 16 workloads completely; thorough executes every truncation point, every EIO point and every malformation of each sampled changelog. Sampling over workloads, exhaustive over fault positions per workload: evidence, not proof.",
-    "Trusted: Go stdlib (bufio, time), the independent renderer/model in harness/c17.go, the simulated reader. Real code: changelog.Parse/ParseOne, version.Parse.",
+    "Trusted: Go stdlib (bufio, time), the independent renderer/model in harness/c17.go, the simulated reader. Real code (instrumented scratch copy, os calls routed to the simulated file system): changelog.Parse/ParseOne/ParseFile/ParseFileOne, version.Parse.",
     "DESIGN.md §5 C17")
 
 chk("C07", "exploration",
